@@ -201,12 +201,18 @@ CHECKS = {
     "C14": dict(
         text="Coq: the reordering routine's schema returns a permutation for EVERY pivot heuristic and every n "
              "(C14_reordering_returns_a_permutation); with duplicate-free names and any permutation the name->index map "
-             "is a bijection agreeing with the variable names, reorder on or off (C14_species_map_is_a_bijection). "
-             "Implementation: built solvers for random listing permutations x reorder x layouts: map bijective and "
-             "consistent with variable_names_, tolerances by name, results by name equal; the real "
-             "DiagonalMarkowitzReorder on all patterns n<=3/4 returns a permutation.",
+             "is a bijection agreeing with the variable names, reorder on or off (C14_species_map_is_a_bijection); the "
+             "heuristic the code uses (Markowitz counts in size_t arithmetic with wrap-around, partial swaps, fill-in) is "
+             "one such instance (C14_real_reordering_returns_a_permutation) and SolverBuilder::GetSpeciesMap composed from "
+             "its parts yields a bijective map and exactly the listed variable names for every mechanism "
+             "(C14_builder_map_is_a_bijection). Tie: the real DiagonalMarkowitzReorder against the model instance on every "
+             "0/1 pattern n<=3 (4 thorough) and random n<=8; variable_map_ / variable_names_ of solvers built by the real "
+             "SolverBuilder against the composed model for random mechanisms, listing orders, reorder on/off. "
+             "Implementation oracles: built solvers for random listing permutations x reorder x layouts (builders and "
+             "States re-used across systems): map bijective and consistent with variable_names_, tolerances by name "
+             "(other phases included), results by name equal.",
         note="The by-name equivariance of the solution relies on C12 (partial). Non-gas-phase tolerance lookup: see C20.",
-        technique="Coq proof (permutation invariants) + by-name oracle on the assembled solvers",
+        technique="Coq proof (permutation invariants, composed builder map) + exact tie of reordering and species map + by-name oracle",
         ref="6 C14"),
     "C15": dict(
         text="Coq (any arithmetic, any formulas as oracles): for both layouts and every cell count, the rate constant stored "
